@@ -153,3 +153,33 @@ def gen(rng, tier):
             for v in sorted(x for x in vals if 0 <= x < ms):
                 for op in UU_OPS:
                     yield '%s %d %d %x' % (op, dst, src, v)
+
+
+def _random_part(rng, n):
+    """uniformly structured random (type, width, value) tuples on top of the boundary product (thorough tier)"""
+    types = list(TYPES)
+    for _ in range(n):
+        bits = rng.choice(WIDTHS)
+        t = rng.choice(types)
+        lo, hi = rng_of(t)
+        if rng.random() < 0.5:
+            w = TYPES[t][0]
+            v = value(rng, w) if rng.random() < 0.6 else rng.getrandbits(w)
+            if TYPES[t][1] and rng.random() < 0.5:
+                v = v - (1 << w) if v >= (1 << (w - 1)) else -v
+            v = max(lo, min(hi, v))
+            yield '%s %d %s %s' % (rng.choice(FROM_OPS), bits, t, sx(v))
+        else:
+            x = value(rng, bits)
+            if rng.random() < 0.5 and bits:
+                x = (x >> TYPES[t][0] << TYPES[t][0] | rng.getrandbits(TYPES[t][0])) % (1 << bits)
+            yield '%s %d %s %x' % (rng.choice(TO_OPS), bits, t, x)
+
+
+_gen_boundary = gen
+
+
+def gen(rng, tier):
+    yield from _gen_boundary(rng, tier)
+    if tier != 'quick':
+        yield from _random_part(rng, 1500000)
